@@ -564,7 +564,17 @@ fn hash_mode(in_path: &str, out_path: &str, threads: usize) {
         let defs = defs.clone();
         handles.push(std::thread::spawn(move || {
             let mut out = Vec::new();
-            for d in defs.iter() {
+            // every thread goes through the definitions in an order of its own (rotated, odd threads backwards):
+            // what one definition leaves behind must not change what the next one generates
+            let n = defs.len();
+            let order: Vec<usize> = (0..n)
+                .map(|k| {
+                    let k = (k + t * n / threads.max(1)) % n.max(1);
+                    if t % 2 == 1 { n - 1 - k } else { k }
+                })
+                .collect();
+            for &k in order.iter() {
+                let d = &defs[k];
                 let src = render_def(d);
                 let r = run_generate(&src);
                 let gh = r
